@@ -59,7 +59,7 @@ func (vfs *OrefaFS) Chdir(dir string) error {
 	vfs.mu.RUnlock()
 
 	if !ok {
-		return &fs.PathError{Op: op, Path: dir, Err: vfs.err.NoSuchFile}
+		return &fs.PathError{Op: op, Path: dir, Err: vfs.notFound(absPath)}
 	}
 
 	if !nd.mode.IsDir() {
@@ -104,7 +104,7 @@ func (vfs *OrefaFS) Chmod(name string, mode fs.FileMode) error {
 	vfs.mu.RUnlock()
 
 	if !ok {
-		return &fs.PathError{Op: op, Path: name, Err: vfs.err.NoSuchFile}
+		return &fs.PathError{Op: op, Path: name, Err: vfs.notFound(absPath)}
 	}
 
 	nd.mu.Lock()
@@ -135,7 +135,7 @@ func (vfs *OrefaFS) Chown(name string, uid, gid int) error {
 	vfs.mu.RUnlock()
 
 	if !ok {
-		return &fs.PathError{Op: op, Path: name, Err: vfs.err.NoSuchFile}
+		return &fs.PathError{Op: op, Path: name, Err: vfs.notFound(absPath)}
 	}
 
 	nd.mu.Lock()
@@ -161,7 +161,7 @@ func (vfs *OrefaFS) Chtimes(name string, atime, mtime time.Time) error {
 	vfs.mu.RUnlock()
 
 	if !ok {
-		return &fs.PathError{Op: op, Path: name, Err: vfs.err.NoSuchFile}
+		return &fs.PathError{Op: op, Path: name, Err: vfs.notFound(absPath)}
 	}
 
 	nd.mu.Lock()
@@ -311,7 +311,7 @@ func (vfs *OrefaFS) Lchown(name string, uid, gid int) error {
 	vfs.mu.RUnlock()
 
 	if !ok {
-		return &fs.PathError{Op: op, Path: name, Err: vfs.err.NoSuchFile}
+		return &fs.PathError{Op: op, Path: name, Err: vfs.notFound(absPath)}
 	}
 
 	nd.mu.Lock()
@@ -340,7 +340,7 @@ func (vfs *OrefaFS) Link(oldname, newname string) error {
 	nParent, nParentOk := vfs.nodes[nDirName]
 
 	if !oChildOk {
-		err := vfs.err.NoSuchFile
+		err := vfs.notFoundLocked(oAbsPath)
 
 		if vfs.OSType() == avfs.OsWindows {
 			oDirName, _ := avfs.SplitAbs(vfs, oAbsPath)
@@ -356,7 +356,7 @@ func (vfs *OrefaFS) Link(oldname, newname string) error {
 	}
 
 	if !nParentOk {
-		return &os.LinkError{Op: op, Old: oldname, New: newname, Err: vfs.err.NoSuchFile}
+		return &os.LinkError{Op: op, Old: oldname, New: newname, Err: vfs.notFoundLocked(nAbsPath)}
 	}
 
 	if nChildOk {
@@ -603,7 +603,7 @@ func (vfs *OrefaFS) OpenFile(name string, flag int, perm fs.FileMode) (avfs.File
 		}
 
 		if om&avfs.OpenCreate == 0 {
-			return (*OrefaFile)(nil), &fs.PathError{Op: op, Path: name, Err: vfs.err.NoSuchFile}
+			return (*OrefaFile)(nil), &fs.PathError{Op: op, Path: name, Err: vfs.notFound(absPath)}
 		}
 
 		if om&avfs.OpenWrite == 0 {
@@ -722,7 +722,7 @@ func (vfs *OrefaFS) Remove(name string) error {
 	parent, parentOk := vfs.nodes[dirName]
 
 	if !childOk || !parentOk {
-		return &fs.PathError{Op: op, Path: name, Err: vfs.err.NoSuchFile}
+		return &fs.PathError{Op: op, Path: name, Err: vfs.notFoundLocked(absPath)}
 	}
 
 	if child == parent {
@@ -828,8 +828,12 @@ func (vfs *OrefaFS) Rename(oldname, newname string) error {
 	nChild, nChildOk := vfs.nodes[nAbsPath]
 	nParent, nParentOk := vfs.nodes[nDirName]
 
-	if !oChildOk || !oParentOk || !nParentOk {
-		return &os.LinkError{Op: op, Old: oldname, New: newname, Err: vfs.err.NoSuchFile}
+	if !oChildOk || !oParentOk {
+		return &os.LinkError{Op: op, Old: oldname, New: newname, Err: vfs.notFoundLocked(oAbsPath)}
+	}
+
+	if !nParentOk {
+		return &os.LinkError{Op: op, Old: oldname, New: newname, Err: vfs.notFoundLocked(nAbsPath)}
 	}
 
 	if oAbsPath == nAbsPath && (!oChild.mode.IsDir() || oldname != newname) {
@@ -1066,7 +1070,7 @@ func (vfs *OrefaFS) Truncate(name string, size int64) error {
 			op = "open"
 		}
 
-		return &fs.PathError{Op: op, Path: name, Err: vfs.err.NoSuchFile}
+		return &fs.PathError{Op: op, Path: name, Err: vfs.notFound(absPath)}
 	}
 
 	if child.mode.IsDir() {
